@@ -548,14 +548,21 @@ Qed.
 Lemma spec_step_known_wallet_side U sm e t :
   wallet_side e = true → known (fs sm) t = true → known (fs (spec_step U sm e)) t = true.
 Proof.
-  destruct e as [t'|t' h b bt|h|t'|id op dur|id op|dt|]; simpl; try done; intros _ Hk.
-  - unfold spec_seen. destruct (known (fs sm) t') eqn:Hk'; [done|].
+  intros Hw Hk. destruct e; simpl in Hw; try discriminate Hw; simpl.
+  - (* Seen *)
+    unfold spec_seen. match goal with |- context [known (fs sm) ?t'] => destruct (known (fs sm) t') eqn:Hk' end; [done|].
     unfold known in *. simpl. apply orb_true_iff in Hk as [Hk|Hk]; apply orb_true_iff; [by left|right].
     apply bool_decide_eq_true in Hk. apply bool_decide_eq_true. set_solver.
-  - unfold spec_lease. destruct (negb _); [done|].
-    destruct (f_leases (fs sm) !! op) as [l|]; [destruct (_ && _)|]; done.
-  - unfold spec_release. destruct (negb _); [done|].
-    destruct (f_leases (fs sm) !! op) as [l|]; [destruct (_ && _)|]; done.
+  - (* Lease *)
+    unfold spec_lease. destruct (negb _); [done|].
+    match goal with |- context [f_leases (fs sm) !! ?op] => destruct (f_leases (fs sm) !! op) as [l|] end;
+      [destruct (_ && _)|]; done.
+  - (* Release *)
+    unfold spec_release. destruct (negb _); [done|].
+    match goal with |- context [f_leases (fs sm) !! ?op] => destruct (f_leases (fs sm) !! op) as [l|] end;
+      [destruct (_ && _)|]; done.
+  - (* Tick *) done.
+  - (* Sweep *) done.
 Qed.
 
 Lemma spec_run_from_known_wallet_side U sm evs t :
@@ -594,4 +601,40 @@ Proof.
   replace (h0 ++ Seen t :: later) with ((h0 ++ [Seen t]) ++ later) by (by rewrite <-app_assoc).
   rewrite spec_run_app. apply spec_run_from_known_wallet_side; [done|].
   rewrite spec_run_app. simpl. apply spec_seen_known.
+Qed.
+
+(** An explicit selection naming an output that a known transaction spends,
+    or that is leased, is refused (such outputs are not even candidates). *)
+Lemma not_candidate_not_eligible x r cs op :
+  op ∉ map c_op cs → op ∉ map c_op (eligible x r cs).
+Proof.
+  intros Hn H. apply Hn. eapply elem_of_submseteq; [exact H|].
+  rewrite !map_fmap. apply fmap_submseteq, sublist_submseteq, eligible_sublist.
+Qed.
+
+Theorem explicit_spent_refused U h x r shuffle targets own aty vsz t op :
+  wf_universe U = true → chain_consistent U h = true →
+  known (fs (spec_run U h)) t = true → op ∈ tx_ins U t → op ∈ r_explicit r →
+  create x r shuffle targets (wallet_cands U (run U h) own aty vsz) = None.
+Proof.
+  intros Hwf Hcons Hk Hop Hsel.
+  destruct (refinement U h Hwf Hcons) as [HI _].
+  apply (create_explicit_refused _ _ _ _ _ op Hsel).
+  apply not_candidate_not_eligible. unfold wallet_cands.
+  by eapply (spent_by_known_not_candidate U _ _ Hwf HI).
+Qed.
+
+Theorem explicit_leased_refused U h x r shuffle targets own aty vsz op :
+  wf_universe U = true → chain_consistent U h = true →
+  leased (fs (spec_run U h)) op (clock (run U h)) = true → op ∈ r_explicit r →
+  create x r shuffle targets (wallet_cands U (run U h) own aty vsz) = None.
+Proof.
+  intros Hwf Hcons Hl Hsel.
+  destruct (refinement U h Hwf Hcons) as [HI _].
+  apply (create_explicit_refused _ _ _ _ _ op Hsel).
+  apply not_candidate_not_eligible. unfold wallet_cands.
+  rewrite cands_of_ops, map_fmap. intros Hin.
+  apply elem_of_list_fmap in Hin as (u & -> & Hu).
+  apply (unspent_outputs_ledger U _ _ Hwf HI) in Hu as (t0 & chg0 & Hu).
+  pose proof (ls_unleased _ _ _ _ _ _ Hu). congruence.
 Qed.
